@@ -1976,3 +1976,11 @@ where
         _marker: std::marker::PhantomData,
     }
 }
+
+// verification hook: shared helpers and harnesses (compiled only by Kani, `--cfg kani`)
+#[cfg(kani)]
+#[path = "/verif/harness/common.rs"]
+pub(crate) mod verif_common;
+#[cfg(kani)]
+#[path = "/verif/harness/h_lib.rs"]
+mod verif;
